@@ -292,10 +292,10 @@ def disarm():
         fired.append("marker file written")
         os.unlink(vp.marker_path())
     for record in vp.LOG:
-        if CANARY_ARG in record.args or "args" in record.kwargs and \
-                record.cls == "VPoolL" and CANARY_ARG in record.kwargs["args"]:
-            if record.cls == "VPoolL":
-                fired.append("registered class instantiated through a dotted name")
+        # the documents' own registered "!VPoolL" elements carry no arguments
+        if record.cls == "VPoolL" and (
+                CANARY_ARG in record.args or CANARY_ARG in (record.kwargs.get("args") or ())):
+            fired.append("registered class instantiated through a dotted name")
     vp.reset()
     return sorted(set(fired))
 
@@ -319,6 +319,19 @@ def load_text(text):
         return None, err
 
 
+def warm_up():
+    """Once per process: load a document with registered tags only, so that every plugin
+    module (and whatever they import) is imported before the canaries are armed"""
+    if not warm_up.done:
+        problem = run_control("section-value", "seq")
+        if problem:
+            raise RuntimeError("warm-up document does not load: " + problem)
+        warm_up.done = True
+
+
+warm_up.done = False
+
+
 def kind_of(spec):
     return "local-tag" if spec[0] == "local" else spec[1]
 
@@ -327,6 +340,7 @@ def run_case(case):
     """None when the document is rejected without side effects, else (key, what)"""
     spec = tuple(case["tag"])
     text = case_text(case)
+    warm_up()
     if not carries_tag(text, resolved_tag(spec)):
         raise RuntimeError("generated document lacks tag %r:\n%s" % (spec, text))
     arm()
@@ -441,10 +455,6 @@ def shard(args):
                     else:
                         acc.count("controls-loaded")
             return acc
-        # make sure every plugin module is imported before the canaries are armed
-        warm = run_control("section-value", "seq")
-        if warm:
-            raise RuntimeError("warm-up document does not load: " + warm)
         for case in cases_of(args):
             key, what, error = run_case(case)
             acc.case(nontrivial_key=repr(case),
